@@ -18,7 +18,7 @@ TECHNIQUE = ("bounded-exhaustive enumeration of datagrams: every body over an ad
 
 def check(data: bytes) -> Tuple[Optional[Dict[str, Any]], str]:
     problem, oc, calls = D.check_datagram(data)
-    budget = D.BUDGET_A + D.BUDGET_B * len(data)
+    budget = D.budget_for(data)
     oc = f"{oc}|work{min(9, (10 * calls) // budget)}"
     if problem is None:
         return None, oc
@@ -74,7 +74,8 @@ def run(tier: str, seed: int) -> Tuple[Stats, str, List[str], Dict[str, Any]]:
     rule = ("one evaluation = DNSIncoming(data), .answers(), .questions, repr() on one datagram under sys.setprofile; "
             "outcome class = (library validity / strict-parser verdict / agreement size) x tenth of the work budget used")
     assumptions = [
-        f"work budget: {D.BUDGET_A} + {D.BUDGET_B} x len(data) call/c_call profile events",
+        f"work budget: {D.BUDGET_A} + {D.BUDGET_B} x len(data) + {D.BUDGET_C} x min(entries declared, len(data) / 5) call/c_call "
+        f"profile events (per entry: one name of up to 128 labels and 128 pointer hops)",
         "the strict parser only ever shrinks the set on which agreement is demanded (backward pointers, exact "
         "rdlength, A=4/AAAA=16 bytes, well-formed NSEC windows, no trailing bytes, names <= 253)",
         "character-strings and labels are compared as text after UTF-8 'replace' decoding",
